@@ -79,6 +79,46 @@ INFO = {
     "W2-C19-riemann2d-fan-closure-late-binding": ("2-D Riemann: per-fan helper closes over the loop variable (late binding)", "R-C-R morphology, asymmetric streams, a point inside the bottom fan", ""),
     "W2-C20-kenamond2-td3-dropped": ("Kenamond 2: t_d3 dropped from the documented lower bound of the outer detonation times", "t_d3 != 0",
                                      "C20's catalogue entry used t_d3 = 0: unit kenamond2.times varies every parameter of the inequality on both sides of the bound"),
+    "W3-C01-guderley-eigen-cache-global-lambda": ("Guderley: similarity exponent memoised (lru_cache), the conversion to physical variables reads the module global that is only set on a cache miss",
+                                                  "configuration X, then another configuration Y, then X again in one interpreter", ""),
+    "W3-C02-sedov-rho1-first-call": ("Sedov pre-shock density computed on the first call of an object only", "omega != 0, one object called at two times", ""),
+    "W3-C03-mader-zeros-like-int": ("Mader output arrays allocated like the position array (integer positions truncate the fields)", "integer position array",
+                                    "NEUTRALISED: the same mechanism was found in three other solvers by the new C05 integer-position monitor and repaired at the public entry point (fix 4469e3d); on the current tree the patch no longer changes any value"),
+    "W3-C04-geneos-hugoniot-memo-no-eos": ("general-EOS Riemann: Hugoniot locus memoised on (pmax, p, rho, gamma, ...) without the equation of state",
+                                           "the same left/right state solved with the ideal-gas and then the JWL closure in one interpreter",
+                                           "no check solved one state with two closures: C04 precedes JWL solves with an ideal-gas solve of the same states; C06 unit 'closure' replays the second solve in a fresh interpreter"),
+    "W3-C05-rod-grid-identity-cache": ("Rod1D caches the spatial part of the modes while the position array is the same object (`x is not self._grid`)",
+                                       "one ndarray re-filled in place between two calls", "C05 passed a new array every time: branch 'ndarray re-filled in place between two calls'"),
+    "W3-C06-rod-early-mode-exit": ("Rod1D stops summing when the last mode is negligible at the requested points", "every requested point is a node of an excited mode (L/3, L/2, ... alone), early time",
+                                   "random points are never nodes: C06 unit 'nodes' (rational fractions of L alone and in pairs) and 'every point alone' in the batch unit"),
+    "W3-C07-kenamond2-vectorised-radial": ("Kenamond 2 vectorised: (x+y)^2 instead of x^2+y^2 for the distance from the axis", "geometry 3, points off the coordinate planes",
+                                           "C07 embedded the common plane at azimuth 0 only: random azimuth (C13 and C09 saw it as built)"),
+    "W3-C08-kenamond2-bt4-parenthesis": ("Kenamond 2: (t_d3 + d)/D2 instead of t_d3 + d/D2", "t_d3 != 0 and D2 != 1", ""),
+    "W3-C09-kenamond1-expanded-distance": ("Kenamond 1: |x - x_d|^2 expanded into x.x - 2 x.x_d + x_d.x_d (cancellation)", "detonator far from the origin compared with the distances",
+                                           "C09 translated by about the size of the configuration: half of the cases now by 1 ... 1e7 times that, allowing the rounding of the translated inputs"),
+    "W3-C10-riemann-xd0-falsy": ("Riemann solvers: `xd0 or 0.5 (xmin + xmax)`", "xd0 == 0.0 exactly and a window not centred on it",
+                                 "membrane never exactly at 0 and windows were images of each other: 15 % of frames at xd0 = 0, default window asymmetric, second solver's window not the image of the first"),
+    "W3-C11-sedov-wrapper-ahead-shortcut": ("Planar/Cylindrical/SphericalSedov: shortcut for requests wholly ahead of the shock decided on r[0]", "convenience class, first requested point ahead of the shock, others behind",
+                                            "C11 uses the general class (request order irrelevant there); C07 now sends descending/shuffled requests to wrapper and general class"),
+    "W3-C12-radshock-root-box-limit": ("radiative shocks: downstream root accepted only below the hydrodynamic compression limit, replaced by a box-constrained least-squares point otherwise",
+                                       "compression above (gamma+1)/(gamma-1): M0 > 7.8 at the defaults, lower for hot upstream states",
+                                       "C12 stopped at M0 = 3, Tref = 300: strong radiating cases added (which exposed a negative-temperature root in the unchanged tree: fix c1e2748)"),
+    "W3-C13-cylexpansion-interface-mask-gap": ("DSD cylindrical expansion vectorised with masks r < r_2 and r > r_2", "a point whose computed radius equals r_2 exactly",
+                                               "C13 approached interfaces to 1e-7 but never sat on them: exactly representable points on r_1, r_2 (axis points, 3-4-5 directions) and on Kenamond 2's sphere"),
+    "W3-C14-sandwich-tb-falsy": ("PlanarSandwich: `kwargs.get('TB') or self.TB`", "TB == 0 exactly",
+                                 "C14 read the expected boundary data from the solver's own attributes: now from the user's parameters; heat parameters are exactly 0 with probability 0.2"),
+    "W3-C15-blake-mask-by-multiplication": ("Blake: causality mask by multiplication (False * inf = nan)", "radii more than ~1000 cavity radii ahead of the front",
+                                            "C15 looked ahead of the front in units of the front radius: far-field points in units of the cavity radius added"),
+    "W3-C16-bbnoh-shared-default-dict": ("black-box Noh wrappers share one module-level default dictionary", "two default-constructed wrappers of different geometry",
+                                         "NEUTRALISED: conflicts with fix 2c6fe29 (each solver copies its dictionary), which repaired the same mechanism found in the unchanged tree by the new C06 unit 'shared'"),
+    "W3-C17-sedov-stale-vacuum-radius": ("same mechanism as W2-C06/W2-C11 (found independently)", "vacuum type, object called again at an earlier time",
+                                         "C17 drew a fresh solver per case: its Sedov sequence now re-uses the object at 0.5, 0.15, 0.05 and 2 times the first time"),
+    "W3-C18-suolson-surface-skip": ("Su-Olson: second integral at x = 0 skipped when exp(-tau (1 + epsilon)) < 1e-10 (the weight is exp(-tau (1 + 1/epsilon)))", "x = 0 exactly, epsilon > ~4, 23/(1+epsilon) < tau < 5",
+                                    "C18 stopped at epsilon = 2: epsilon 3, 10, 20 enumerated, half of the Marshak cases at tau in 1..5 (needed an absolute noise floor and a two-spacing Marshak stencil to stay silent on the unchanged tree)"),
+    "W3-C19-riemann2d-polar-order-restore": ("2-D Riemann wrapper evaluates in order of polar angle and restores the order by applying the permutation twice", "three or more points in a non-involutive order across regions",
+                                             "C19 scanned in ascending order only: the 73-ray scan is repeated in a scrambled order (C06 saw it as built)"),
+    "W3-C20-noh2-cylindrical-time-guard": ("Noh2: time guard replaced by (1-t)^geometry <= 0", "cylindrical geometry and t > 1",
+                                           "C20 probed the guard with the default geometry only: every geometry, t = 1+1e-9, 2, 3"),
 }
 
 
